@@ -12,15 +12,15 @@ MODEL_MODULES = ["PdsVerif.Model.BankLayout"]
 REQUIRED = [
     "PdsVerif.C05." + n
     for n in """scaleOK edges_equally_spaced vertex_ends grid_hz_strictMono
-    tri_rejects_iff floor_style_rejects_iff tri_range_rejected fbank_range_rejected gabor_range_rejected
-    gammatone_range_rejected
+    tri_rejects_iff fbank_rejects_iff gabor_rejects_iff gammatone_rejects_iff
+    tri_range_rejected fbank_range_rejected gabor_range_rejected gammatone_range_rejected
     tri_layout fbank_layout gabor_layout gammatone_layout
     tri_centers_strictMono fbank_centers_strictMono gabor_centers_strictMono gammatone_centers_strictMono
     tri_center_mem_support fbank_center_mem_support gabor_center_mem_support gammatone_center_mem_support
-    tri_peak fbank_peak bins_generic tri_is_triangle fbank_is_sqrt_mel_triangle tri_vertices_valid
+    tri_peak fbank_peak loop_range bins_generic bins_doc tri_is_triangle fbank_is_sqrt_mel_triangle tri_vertices_valid
     gabor_response_bins gabor_peak gabor_3dB gabor_erb gabor_l2
-    gammatone_H_nsq gammatone_peak gammatone_3dB gammatone_l2 gammatone_l2_integral gammatone_erb_const
-    gammatone_erb_partial""".split()
+    gammatone_H_nsq gammatone_peak gammatone_3dB gammatone_l2 gammatone_h_nsq gammatone_l2_integral
+    gammatone_erb_const gammatone_erb_partial gammatone_erb_order1""".split()
 ]
 RULE = (
     "configurations = bank class (4) x scale (mel, Bark, linear(low, slope), octave(low)) x sampling rate (1 kHz .. 48 kHz, "
